@@ -182,3 +182,62 @@ def _replay_smooth(model, contract):
 for _k, _c in CONTRACTS.items():
     if "Parameter.smooth" in _k:
         _c["replay_hook"] = _replay_smooth
+
+
+# ---- Scenario.run (C09): what is simulated is the scenario's OWN transformation of the named parameter set / program set together with the
+# scenario's instructions -- nothing else reaches run_sim; a scenario with programs but without instructions is refused
+def _env_run(with_progs, with_instr):
+    def make(it):
+        from pyvc.interp import PyObjV
+        from pyvc.core import Opaque
+        from pyvc import source
+
+        sm = source.load("scenarios")
+        self = PyObjV("Scenario", sm, {"name": "scen", "parsetname": "default", "progsetname": "progs" if with_progs else None})
+        ps, pg = Opaque("the project's parameter set 'default'"), Opaque("the project's program set 'progs'")
+        project = PyObjV("Project", source.load("project"), {"parsets": {"default": ps}, "progsets": {"progs": pg}})
+        return {"self": self, "project": project, "parset": None, "progset": None, "store_results": True, "PS": ps, "PG": pg, "INSTR": Opaque("the scenario's instructions") if with_instr else None, "CALLS": []}
+
+    return make
+
+
+def _ghost_run_sim(it, **kw):
+    it.live_env["CALLS"].append(kw)
+    return ("result", kw.get("result_name"))
+
+
+for _wp, _wi in ((False, False), (True, True), (True, False)):
+    CONTRACTS["scenarios:Scenario.run#%s" % ("parameters_only" if not _wp else ("with_programs" if _wi else "programs_without_instructions"))] = dict(
+        schema=schema, make_env=_env_run(_wp, _wi),
+        call_stubs={"self.get_parset": (lambda it, ps, proj: ("scenario version of", ps)), "self.get_progset": (lambda it, pg, proj: None if pg is None else ("scenario version of", pg)),
+                    "self.get_instructions": (lambda it, pg, proj: it.live_env["INSTR"]), "project.run_sim": _ghost_run_sim},
+        raises=({"Exception": "True"} if (_wp and not _wi) else {}), raises_props=["C09"],
+        ensures=[] if (_wp and not _wi) else [
+            ("C09.the_scenarios_own_parameter_set_is_simulated_under_the_scenarios_name", "len(CALLS) == 1 and CALLS[0]['parset'] == ('scenario version of', PS) and CALLS[0]['result_name'] == 'scen' and result == ('result', 'scen')"),
+            (("C09.with_the_scenarios_program_set_and_instructions", "CALLS[0]['progset'] == ('scenario version of', PG) and CALLS[0]['progset_instructions'] is INSTR") if _wp else
+             ("C09.without_programs_nothing_program_related_is_passed", "'progset' not in CALLS[0] and 'progset_instructions' not in CALLS[0]")),
+        ],
+        defined_props=["C09"])
+
+
+# ---- BudgetScenario / CoverageScenario.get_instructions (C09): the instructions carry the scenario's start year and its overwrites
+def _env_budget(cls, field):
+    def make(it):
+        from pyvc.interp import PyObjV
+        from pyvc.core import Opaque
+        from pyvc import source
+
+        S, Y = z3.Real("S"), z3.Real("Y")
+        self = PyObjV(cls, source.load("scenarios"), {"name": "scen", "start_year": Y, field: {"prog": S}})
+        return {"self": self, "progset": Opaque("progset"), "project": Opaque("project"), "S": S, "Y": Y}
+
+    return make
+
+
+for _cls, _field in (("BudgetScenario", "alloc"), ("CoverageScenario", "coverage")):
+    CONTRACTS["scenarios:%s.get_instructions" % _cls] = dict(
+        schema=schema, make_env=_env_budget(_cls, _field), concrete_new=["ProgramInstructions", "TimeSeries"],
+        ensures=[("C09.programs_start_at_the_scenarios_start_year", "result.start_year == Y"),
+                 ("C09+C11.the_scenarios_overwrite_is_in_force_from_the_start_year", "len(result.%s['prog'].t) == 1 and result.%s['prog'].t[0] == Y and result.%s['prog'].vals[0] == S" % (_field, _field, _field)),
+                 ("C09.no_other_overwrite_is_introduced", " and ".join("len(result.%s) == %d" % (f, 1 if f == _field else 0) for f in ("alloc", "capacity", "coverage")))],
+        defined_props=["C09", "C11"])
